@@ -546,7 +546,10 @@ static bool read_lead(zckCtx *zck) {
 
     /* Read header digest */
     zck_log(ZCK_LOG_DEBUG, "Reading header digest");
-    header = zrealloc(header, length + zck->hash_type.digest_size);
+    /* Only grow the buffer; the first lead bytes read may already extend past
+     * the digest and belong to the header */
+    if(lead < length + zck->hash_type.digest_size)
+        header = zrealloc(header, length + zck->hash_type.digest_size);
     if (!header) {
         zck_log(ZCK_LOG_ERROR, "OOM in %s", __func__);
         return false;
